@@ -17,6 +17,7 @@ echo "== demo on the unchanged code (must pass)"
 ( cd $D && PYTHONPATH=/repo/src MPLBACKEND=Agg timeout 600 /venv/bin/python $OUT/demo.py >/dev/null 2>$D/err.txt; echo "exit=$?"; tail -2 $D/err.txt )
 rm -rf $D
 git -C /repo worktree remove --force $TMPW
-mkdir -p /verif/seeded/$ID-$SUF
-cp $OUT/patch.diff $OUT/demo.py $OUT/notes.md /verif/seeded/$ID-$SUF/ 2>/dev/null
-echo "filed under /verif/seeded/$ID-$SUF"
+case $ID in *B) DEST=/verif/seeded/${ID%B}-b;; *) DEST=/verif/seeded/$ID-$SUF;; esac
+mkdir -p $DEST
+cp $OUT/patch.diff $OUT/demo.py $OUT/notes.md $DEST/ 2>/dev/null
+echo "filed under $DEST"
